@@ -67,7 +67,12 @@ class CliAdapter:
                 return f
 
             async def g(*a):
-                return f(*a)
+                # the handler is entered at once (its call is recorded), then
+                # really suspends: whatever else has arrived is processed
+                # meanwhile
+                r = f(*a)
+                await asyncio.sleep(0)
+                return r
             return g
 
         def on_simple(ns, ev, target):
@@ -191,6 +196,21 @@ class CliAdapter:
                     self._deliver(f)
             elif act == 'RxFrame':
                 self._deliver(self._bin_frame(a))
+            elif act == 'RxAttThenEvent':
+                f1 = self._bin_frame({'kind': 'att', 'b': a['b']})
+                id = None if a['id'] < 0 else a['id']
+                f2 = refcodec.ref_encode(
+                    2, a['ns'], id,
+                    [a['ev']] + [val(x) for x in a['args']])[0]
+                if self.is_async:
+                    # engine.io hands every message to its own task
+                    async def both():
+                        await asyncio.gather(c.eio.deliver(f1),
+                                             c.eio.deliver(f2))
+                    self._run(both())
+                else:
+                    self._deliver(f1)
+                    self._deliver(f2)
             elif act == 'Emit':
                 kw = {}
                 if a['cb']:
